@@ -137,18 +137,18 @@ Inductive doc_meta_line : list N -> Prop :=
 Definition clear_mark (c : N) : Prop := c = 42 \/ c = 33.     (* * ! *)
 Definition note_char (c : N) : bool := negb (is_note_stop c).  (* [^()@] *)
 
-Inductive lot_kind := KPrice | KDate | KNote.
+Inductive lot_kind := LkPrice | LkDate | LkNote.
 
 (* lot-price ::= "{{" sp* expr sp* "}}" | "{" sp* expr sp* "}" ; lot-date ::= "[" sp* date sp* "]" ;
    lot-note ::= "(" [^()@]* ")" *)
 Inductive doc_lot_part : lot_kind -> list N -> Prop :=
 | LP_total : forall s1 v s2, sps0 s1 -> doc_vexpr v -> sps0 s2 ->
-             doc_lot_part KPrice ([123; 123] ++ s1 ++ v ++ s2 ++ [125; 125])
+             doc_lot_part LkPrice ([123; 123] ++ s1 ++ v ++ s2 ++ [125; 125])
 | LP_rate : forall s1 v s2, sps0 s1 -> doc_vexpr v -> sps0 s2 ->
-            doc_lot_part KPrice ([123] ++ s1 ++ v ++ s2 ++ [125])
+            doc_lot_part LkPrice ([123] ++ s1 ++ v ++ s2 ++ [125])
 | LP_date : forall s1 dt s2, sps0 s1 -> doc_date dt -> sps0 s2 ->
-            doc_lot_part KDate ([91] ++ s1 ++ dt ++ s2 ++ [93])
-| LP_note : forall n, all note_char n -> doc_lot_part KNote ([40] ++ n ++ [41]).
+            doc_lot_part LkDate ([91] ++ s1 ++ dt ++ s2 ++ [93])
+| LP_note : forall n, all note_char n -> doc_lot_part LkNote ([40] ++ n ++ [41]).
 
 (* posting-lot: the parts in any order, each at most once, each followed by sp* *)
 Inductive doc_lot : list lot_kind -> list N -> Prop :=
@@ -192,3 +192,51 @@ Inductive doc_posting_line : list N -> Prop :=
 Inductive doc_posting : lines -> Prop :=
 | DP : forall l e ms, doc_posting_line l -> Forall (fun le => doc_meta_line (fst le)) ms ->
        doc_posting ((l, e) :: ms).
+
+(* ================================================================================== *)
+(* Transactions                                                                        *)
+(* ================================================================================== *)
+Definition payee_char (c : N) : bool := negb (is_payee_stop c).                       (* [^\r\n;] *)
+Definition code_char (c : N) : bool := negb (c =? 40) && negb (c =? 41) && negb (is_nl c).  (* [^()\r\n] *)
+
+(* note ::= (clear-state sp* )? (code sp* )? payee ; code ::= "(" [^()\r\n]* ")" ; payee ::= [^\r\n;]* *)
+Inductive doc_note : list N -> Prop :=
+| DN : forall cs code p,
+    (cs = [] \/ exists c s', clear_mark c /\ sps0 s' /\ cs = c :: s') ->
+    (code = [] \/ exists t s', all code_char t /\ sps0 s' /\ code = [40] ++ t ++ [41] ++ s') ->
+    all payee_char p ->
+    (code = [] -> starts (N.eqb 40) (skip_sp p) = false) ->
+    (cs = [] -> code = [] -> starts is_clear_mark (skip_sp p) = false) ->
+    doc_note (cs ++ code ++ p).
+
+(* transaction-header ::= date ("=" date)? (sp+ note)?   (without its new-line) *)
+Inductive doc_txn_header : list N -> Prop :=
+| DH : forall d ed nt, doc_date d ->
+       (ed = [] \/ exists d2, doc_date d2 /\ ed = 61 :: d2) ->
+       (nt = [] \/ exists s n, sps1 s /\ doc_note n /\ nt = s ++ n) ->
+       doc_txn_header (d ++ ed ++ nt).
+
+(* transaction ::= transaction-header new-line (metadata new-line)* posting* , as lines *)
+Inductive doc_transaction : lines -> Prop :=
+| DT : forall h e ms ps, doc_txn_header h -> Forall (fun le => doc_meta_line (fst le)) ms ->
+       Forall doc_posting ps -> doc_transaction ((h, e) :: ms ++ concat ps).
+
+(* ================================================================================== *)
+(* Whole files                                                                         *)
+(* ================================================================================== *)
+Definition directive2 (ls : lines) : Prop := directive ls \/ doc_transaction ls.
+
+(* ledger-file ::= vertical-space* (directive vertical-space* )* with maximal comment blocks,
+   as items_ok of DocGrammar.v with transactions among the directives *)
+Fixpoint items_ok2 (its : list item) : Prop :=
+  match its with
+  | [] => True
+  | Blank s _ :: r => sps0 s /\ items_ok2 r
+  | Dir ls :: r =>
+      directive2 ls /\ items_ok2 r /\
+      (is_comment_block ls -> match r with Dir ls' :: _ => ~ is_comment_block ls' | _ => True end)
+  end.
+
+Definition In_doc_grammar_txn (s : list N) : Prop :=
+  exists its, items_ok2 its /\ eof_only_last (flat_map item_lines its) /\
+              s = render_lines (flat_map item_lines its).
